@@ -101,6 +101,7 @@ func (s *socket) RecvMsg() (*protocol.Message, error) {
 	// For now this uses a simple unified queue for the entire
 	// socket.  Later we can look at moving this to priority queues
 	// based on socket pipes.
+	var expireQ <-chan time.Time
 	for {
 		s.Lock()
 		rq := s.recvQ
@@ -108,7 +109,12 @@ func (s *socket) RecvMsg() (*protocol.Message, error) {
 		zq := s.sizeQ
 		tq := nilQ
 		if s.recvExpire > 0 {
-			tq = time.After(s.recvExpire)
+			if expireQ == nil {
+				// the deadline belongs to the call: armed once, not
+				// again each time the queue is replaced
+				expireQ = time.After(s.recvExpire)
+			}
+			tq = expireQ
 		}
 		s.Unlock()
 
